@@ -65,6 +65,13 @@ def main():
     stale[3]["files"] = {"out.ts": {"sha": "empty", "mtime": "0"}}
     ok2, matched2, res2 = common.trace_validate("Trace_Writer", stale)
     results.append(("9 a run that leaves the placeholder in place is listed as bad", res.bad == [] and 4 in res2.bad, f"good bad={res.bad} stale bad={res2.bad}"))
+    # 10: Trace_Compose / Trace_C05!DeclOk - a member whose key differs once a sibling follows it, and a declaration that lost a parameter, are listed
+    m = {"lang": "swift", "item": "m_dashed", "alone": {"key": "the_subject-wire"}, "together": {"key": "the_subject-wire"}}
+    ok, matched, res = common.trace_validate("Trace_Compose", [m, dict(m, together={"key": "the_subject_wire"}), m])
+    d = {"lang": "typescript", "declared": ["P", "Q"], "params": ["P", "Q"]}
+    ok2, matched2, res2 = common.trace_validate("Trace_C05", [d, dict(d, declared=["P"]), dict(d, declared=["Q", "P"]), d])
+    results.append(("10 a member key that depends on a sibling / a declaration that lost or reordered a parameter listed as bad",
+                    matched == 3 and res.bad == [2] and matched2 == 4 and res2.bad == [2, 3], f"compose bad={res.bad} decl bad={res2.bad}"))
     allok = True
     for name, passed, info in results:
         print(("ok   " if passed else "FAIL ") + name + "  [" + info + "]")
